@@ -547,7 +547,10 @@ class LocalConcurrences:
         else:
             slice = self._wp[rb:re, cb:ce]
         if positivize:
-            neg_idx = slice < 0
+            if not self.compact:
+                # Do not modify the stored matrix: the negated cells mark the matches found so far
+                slice = slice.copy()
+            neg_idx = np.logical_and(slice < 0, np.isfinite(slice))
             slice[neg_idx] = -slice[neg_idx]
         return slice
 
